@@ -80,6 +80,31 @@ type VServer struct {
 
 // VStart creates and starts a server and waits until its loop is serving.
 func VStart(cfg *factory.Config, d forwarder.Driver) (*VServer, error) {
+	// The listen address can be busy for a moment (the descriptor of the previous server on this address is closed
+	// only when its receiver goroutine has been scheduled once more; on a loaded machine that can lag): a loop
+	// that is gone right after the start is retried a few times before it counts.
+	var v *VServer
+	var err error
+	for try := 0; try < 5; try++ {
+		if v, err = vStartOnce(cfg, d); err == nil {
+			return v, nil
+		}
+		probe := ""
+		if a, e := net.ResolveUDPAddr("udp4", cfg.Pfcp.Addr+":8805"); e == nil {
+			if c, e := net.ListenUDP("udp4", a); e != nil {
+				probe = e.Error()
+			} else {
+				_ = c.Close()
+				probe = "the address can be bound now"
+			}
+		}
+		err = fmt.Errorf("%v [bind probe: %s]", err, probe)
+		time.Sleep(time.Duration(100*(try+1)) * time.Millisecond)
+	}
+	return nil, err
+}
+
+func vStartOnce(cfg *factory.Config, d forwarder.Driver) (*VServer, error) {
 	VQuietLog()
 	v := &VServer{S: NewPfcpServer(cfg, d), fatal0: vFatal.Load(), buf: make([]byte, 256<<10)}
 	d.HandleReport(v.S)
